@@ -4,4 +4,9 @@ cd "$(dirname "$(readlink -f "$0")")" || exit 2
 if ! /venv/bin/python -c "import hypothesis" 2>/dev/null; then
     /venv/bin/pip install --no-index --find-links /opt/veriftools/wheels hypothesis || exit 1
 fi
+# optional: atheris for the extra campaigns tools/atheris_c02.py / tools/atheris_c15.py
+# (not needed by any registered check; failure to install is not an error)
+if [ ! -d .deps/atheris ]; then
+    /venv/bin/pip install -q --no-index --find-links /opt/veriftools/wheels --target .deps atheris >/dev/null 2>&1 || true
+fi
 /venv/bin/python -c "import hypothesis, numpy, typhon; print('setup ok: hypothesis', hypothesis.__version__)"
